@@ -174,6 +174,30 @@ def _helper_position(F, roots, POS, depth):
     return False
 
 
+def _closure_payload_roots(F, q, roots, depth=0):
+    """q is a closure and `roots` contains one of its own (non-environment) parameters: when the closure is handed to an Option / Result
+    combinator (filter / map / and_then / is_some_and / map_or ...), the parameter is the payload of the receiver, so the receiver's
+    provenance in the enclosing function is the parameter's provenance (`s.rfind(c).filter(|&i| ..s[i + 1..]..).map(|i| ..s[..i]..)`)"""
+    if '::{closure#' not in q or depth > 2:
+        return []
+    if not any(rr[0] == 'param' and rr[1] >= 2 and not rr[2] for rr in roots):
+        return []
+    parent = q.rsplit('::{closure#', 1)[0]
+    if parent not in F.fn_bodies:
+        return []
+    out = []
+    for i, c in F.calls(parent):
+        cal = callee_of(c)
+        if not cal.startswith(('std::option::Option', 'core::option::Option', 'std::result::Result', 'core::result::Result')):
+            continue
+        if not any(r[0] == 'agg' and r[1][0] == 'closure' and r[1][1] == q for a in c['args'][1:] for r in F.trace(parent, a)):
+            continue
+        rs = F.trace(parent, c['args'][0], deep=True)
+        out += rs
+        out += _closure_payload_roots(F, parent, rs, depth + 1)
+    return out
+
+
 def _short(r):
     if r[0] == 'param':
         return 'param%d.%s' % (r[1], '.'.join(r[2]))
@@ -308,6 +332,7 @@ def run(F, tier, res):
                 for o in ops:
                     lits = F.operand_literals(p, o)
                     roots = F.trace(p, o)
+                    roots = roots + _closure_payload_roots(F, p, roots)
                     if any(rr[0] == 'call' and rr[1].endswith(POS) for rr in roots) or any(rr[0] == 'call' and ('Match' in rr[1] or 'regex' in rr[1]) for rr in roots):
                         continue       # a position produced by a search / match / length of a string
                     if _helper_position(F, roots, POS, 0):
@@ -417,7 +442,8 @@ def run(F, tier, res):
     nonempty_consumers = ('::initialize_hunk', '::write_line_of_code_with_optional_path_and_line_number')
 
     def _sig(p, o):
-        return _sigF(F, p, o)
+        # a closure's captured variables are read as the enclosing function's values (closure bodies are treated as inlined)
+        return ','.join(sorted({_short(r) for r in F.trace_env(p, o)}))
 
     def _len_guard(p, at_bb, k, container_roots):
         """dominating comparison len(container) > k (k constant)"""
@@ -494,7 +520,7 @@ def run(F, tier, res):
             idx_sig = _sig(p, idx_op) if idx_op else '?'
             key = 'fn=%s;index=[%s] of [%s]' % (p, idx_sig, cont_sig)
             lits = [v[1] for v in F.operand_literals(p, idx_op) if v[0] == 'int'] if idx_op else []
-            roots = F.trace(p, idx_op) if idx_op else []
+            roots = F.trace_env(p, idx_op) if idx_op else []
             computed = any(r[0] in ('param', 'call', 'binop', 'local') for r in roots)
             why = None
             if const_len is not None and lits and not computed and max(lits) < const_len:
@@ -529,7 +555,26 @@ def run(F, tier, res):
                                     if any(x[0] == 'call' and x[1].endswith(suf) for x in F.trace(p, a, deep=True)):
                                         return True
                         return False
-                    if not (Ru.guarded_by(F, p, i, _has) or Ru.guarded_by(F, p, i, _has, want_true=False)):
+                    def _guarded_at(q, bb, depth=0):
+                        if Ru.guarded_by(F, q, bb, _has) or Ru.guarded_by(F, q, bb, _has, want_true=False):
+                            return True
+                        # inside a closure: the guard may dominate the place where the closure is consumed, or be the bool whose
+                        # `then(..)` runs the closure
+                        site = F.closure_site(q) if depth < 3 else None
+                        if not site:
+                            return False
+                        parent = site[0]
+                        for j, c2 in F.calls(parent):
+                            if not any(r[0] == 'agg' and r[1][0] == 'closure' and r[1][1] == q for a in c2['args'] for r in F.trace(parent, a)):
+                                continue
+                            if callee_of(c2).endswith(('bool::then', '<bool>::then', '<impl bool>::then')):
+                                suf_ = suf
+                                if any(x[0] == 'call' and x[1].endswith(suf_) for x in F.trace(parent, c2['args'][0], deep=True)):
+                                    return True
+                            if _guarded_at(parent, j, depth + 1):
+                                return True
+                        return False
+                    if not _guarded_at(p, i):
                         res.violate('P6', key + ';guard', 'the recorded argument for this index site relies on a dominating `%s` test that is no longer there' % suf, where=where)
                         continue
                 ok6 += 1
@@ -556,18 +601,42 @@ def run(F, tier, res):
                         res.anchor_missing('ParsedHunkHeader.' + FIELD)
                         continue
                     o = st[2][2][names.index(FIELD)]
-                    sig = _roots_sig(F, p, o)
-                    pl = o.get('move') or o.get('copy')
+                    def _nonempty_at(p, i, o, depth=0):
+                        sig = _roots_sig(F, p, o)
+                        pl = o.get('move') or o.get('copy')
 
-                    def is_empty_of_same(rs):
-                        for r in rs:
-                            if r[0] == 'call' and r[1].endswith('::is_empty'):
-                                for a in r[4]['args'][:1]:
-                                    ra = F.trace(p, a)
-                                    if any(x[0] == 'local' and pl and x[1] == pl['l'] for x in ra) or (_roots_sig(F, p, a) & sig):
+                        def is_empty_of_same(rs):
+                            for r in rs:
+                                if r[0] == 'call' and r[1].endswith('::is_empty'):
+                                    for a in r[4]['args'][:1]:
+                                        ra = F.trace(p, a)
+                                        if any(x[0] == 'local' and pl and x[1] == pl['l'] for x in ra) or (_roots_sig(F, p, a) & sig):
+                                            return True
+                            return False
+                        if i is None:
+                            return is_empty_of_same
+                        if Ru.guarded_by(F, p, i, is_empty_of_same, want_true=False):
+                            return True
+                        # the constructor sits in a closure: the test may dominate the place where the closure is consumed, or be the
+                        # bool whose `then(..)` runs it -- `(!v.is_empty()).then(|| ParsedHunkHeader { .. v .. })`
+                        site = F.closure_site(p) if depth < 3 else None
+                        if not site:
+                            return False
+                        parent, _, cops = site
+                        captured = [co for co in cops if any(r[0] == 'param' and r[1] == 1 and r[2] and str(r[2][0]).isdigit() and
+                                                             int(r[2][0]) < len(cops) and cops[int(r[2][0])] is co for r in F.trace(p, o))]
+                        for j, c2 in F.calls(parent):
+                            if not any(r[0] == 'agg' and r[1][0] == 'closure' and r[1][1] == p for a in c2['args'] for r in F.trace(parent, a)):
+                                continue
+                            for co in captured:
+                                if callee_of(c2).endswith(('bool::then', '<impl bool>::then')):
+                                    pred = _nonempty_at(parent, None, co)
+                                    if pred(F.trace(parent, c2['args'][0])) and Ru.negations(F, parent, c2['args'][0]) % 2 == 1:
                                         return True
+                                if _nonempty_at(parent, j, co, depth + 1):
+                                    return True
                         return False
-                    if Ru.guarded_by(F, p, i, is_empty_of_same, want_true=False):
+                    if _nonempty_at(p, i, o):
                         okn += 1
                     else:
                         res.violate('NONEMPTY', 'fn=%s;ctor' % p, 'a ParsedHunkHeader is constructed without a dominating test that its coordinate list is non-empty: '
